@@ -261,6 +261,9 @@ func (e *Engine) runReplay(fi *FuncInfo, c *FuncContract, modelCases [][]*CV, se
 	os.WriteFile(testFile, []byte(out.TestSrc), 0o644)
 	pkgDir := filepath.Dir(e.fset.Position(fi.Decl.Pos()).Filename)
 	ov := map[string]map[string]string{"Replace": {filepath.Join(pkgDir, "zz_govc_replay_test.go"): testFile}}
+	for abs := range e.overlay {
+		ov["Replace"][abs] = filepath.Join(e.overlayDir, strings.TrimPrefix(abs, e.repo+"/"))
+	}
 	ovb, _ := json.Marshal(ov)
 	ovFile := filepath.Join(dir, "overlay.json")
 	os.WriteFile(ovFile, ovb, 0o644)
